@@ -4,6 +4,7 @@ conformance, like the transcriptions used by the property checks; a difference i
 disagree - a statement about the model's faithfulness or a change of behaviour, to be read by a person), not as a VIOLATION of
 a listed property.
 usage: bin/extras [--tier quick|thorough]     exit 0 = every module conforms, 1 = drift, 2 = tool error"""
+import json
 import os
 import re
 import sys
@@ -100,7 +101,53 @@ def highlight(tier):
     return "Highlight", len(cases), drift
 
 
-MODULES = [prompt, plan, highlight]
+def multiline(tier):
+    """spec/Multiline.tla (Enter on an incomplete buffer, the sub-prompt text, trim_multiline_prompts) - every typing of 2..3
+    physical lines over quotes, backslash, pipe, blank, `>` and a letter that the editor's own rule (Tokenizer!Complete) allows"""
+    drift = []
+    cases = []
+    cfg = "MCMultiline_3" if tier == "quick" else "MCMultiline_4"
+    r = run_tlc("MCMultiline", cfg, on_replay=cases.append, keep_replays=False, timeout=6000, xmx="24g", coverage=False)
+    if r.violation:
+        raise ToolError("the multi-line transcription violates JoinOK (%s):\n%s" % (cfg, r.violation[:2500]))
+    bufs = [chars(list(c["buf"])) for c in cases]
+    res = inproc_map("multiline", [{"id": i, "line": b} for i, b in enumerate(bufs)], timeout=30)
+    for c, b, o in zip(cases, bufs, res):
+        want = chars(list(c["trimmed"]))
+        # every emitted buffer was accepted by the model's editor: the real parse_line must find it complete, and every proper
+        # prefix that ends right before an inserted sub-prompt incomplete (that is why Enter did not submit there)
+        if o.get("complete") is not True or o.get("trimmed") != want:
+            drift.append((b, {"complete": True, "trimmed": want}, {k: o[k] for k in o if k != "id"}))
+    pre = sorted({b[:i] for b in bufs for i in range(len(b)) if b.startswith("\n>> ", i)})
+    res2 = inproc_map("multiline", [{"id": i, "line": p} for i, p in enumerate(pre)], timeout=30)
+    for p, o in zip(pre, res2):
+        if o.get("complete") is not False:
+            drift.append((p, {"complete": False}, {k: o[k] for k in o if k != "id"}))
+    # the real editor: physical lines typed at a pty prompt (Enter after each) run the programs of the joined line
+    import ptydrv
+    from common import run_cases
+    typed = [(["vpa a\\", "b"], "vpa ab"), (["vpa 'a", "b' c"], "vpa 'a\nb' c"), (["vpa a |", "vpa b"], "vpa a | vpa b"),
+             (["vpa \"x", "y\" z"], "vpa \"x\ny\" z"), (["vpa a \\", " b \\", "c"], "vpa a  b c"), (["vpa a |  ", "vpa 'p", "q'"], "vpa a | vpa 'p\nq'")]
+    base = run_cases([{"entry": "c", "text": j, "want_files": False} for _, j in typed])
+    for (pieces, joined), b in zip(typed, base):
+        try:
+            sess = ptydrv.LineSession()
+        except ptydrv.Unsettled as e:
+            raise ToolError("pty session: %s" % e)
+        try:
+            for pc in pieces:
+                sess.send(pc + "\r", timeout=10)
+            got = sorted(json.dumps(x.get("argv")) for x in sess.log() if x.get("h") == "pa")
+        finally:
+            sess.close()
+        want = sorted(json.dumps(x.get("argv")) for x in b.get("log", []) if x.get("h") == "pa")
+        if got != want:
+            drift.append((" <Enter> ".join(pieces), want, got))
+    log("[extras] Multiline %s: %d accepted buffers, %d unfinished prefixes, %d distinct states" % (cfg, len(cases), len(pre), r.distinct))
+    return "Multiline", len(cases) + len(pre) + len(typed), drift
+
+
+MODULES = [prompt, plan, highlight, multiline]
 
 
 def main():
